@@ -290,7 +290,9 @@ class History:
         readable = [n for n in self.names if self.present[n] and n not in self.bad]
         start_idx = len(self.events)
         self.events.append({"ev": "start", "mode": mode, "cache": cache, "any_readable": bool(readable) and not self.opaque, "plan": plan,
-                            "must_fail": self.config_class != "ok"})
+                            "must_fail": self.config_class != "ok",
+                            "cc": {"ok": "ok", "missing": "missing", "invalid": "invalid", "nomacros": "invalid",
+                                   "nosourcedir": "nosourcedir", "sourcedirfile": "sourcedirfile"}.get(self.config_class, "noscope")})
         r = bl.run_breadlog(self.binary, self.config_arg, check=(mode == "check"), tmpdir=self.tmp_arg,
                             roots=(P.proj, os.path.join(P.root, "tmp"), P.tmp), plan=plan, timeout=timeout,
                             cwd=cwd or self.cwd, logdir=os.path.join(P.root, "tmp"))
@@ -576,7 +578,9 @@ def runtrace(histories_events, max_files=5):
 
 def runtrace_eligible(evs):
     init = evs[0]
-    return (init.get("ev") == "init" and init.get("base", 0) == 0 and not init.get("must_fail") and not init.get("opaque")
+    starts = [e for e in evs if e.get("ev") == "start"]
+    return (init.get("ev") == "init" and init.get("base", 0) == 0 and not init.get("opaque")
+            and all(e.get("cc", "ok") != "noscope" for e in starts)
             and 1 <= len(init.get("files", [])) <= 5 and sum(len(f) for f in init.get("files", [])) <= 60
             and "present" in init and any(len(f) for f in init["files"]) is not None
             and all(e.get("ev") != "start" or "order" in e for e in evs))
